@@ -131,12 +131,23 @@ def opt_disjoint(ctx):
             if nt:
                 scans.append((sw, nt[0]))
     trues = []
+    computed = []
     for bi, blk in enumerate(b.blocks):
         if blk["cleanup"]:
             continue
         for st in blk["stmts"]:
-            if st["k"] == "assign" and st["place"]["l"] == 0 and not st["place"]["p"] and st["rv"].get("k") == "use" and st["rv"]["op"].get("k") == "const" and st["rv"]["op"].get("bool") is True:
-                trues.append(bi)
+            if st["k"] == "assign" and st["place"]["l"] == 0 and not st["place"]["p"]:
+                if st["rv"].get("k") == "use" and st["rv"]["op"].get("k") == "const" and st["rv"]["op"].get("bool") is True:
+                    trues.append(bi)
+                elif not (st["rv"].get("k") == "use" and st["rv"]["op"].get("k") == "const"):
+                    computed.append(bi)
+        t_ = blk["term"]
+        if t_["k"] == "call" and t_.get("dest") and t_["dest"]["l"] == 0 and not t_["dest"]["p"]:
+            computed.append(bi)
+    if trues and computed:
+        # the answer is the constant `true` in one place and worked out in another (a second look at the classes
+        # after the budget ran out, say): what is worked out can be `true` as well, and must be reached the same way
+        trues = trues + computed
     if trues and none_targets:
         # for every scan that can lead to the answer: only through its own exhaustion edge
         good = all((tb not in b.reach_from(sw)) or n == tb or b.dominates(n, tb) for tb in trues for sw, n in scans)
